@@ -26,6 +26,7 @@ fn setup(ctx: &mut Ctx) {
     ctx.floor("name:empty", 50);
     ctx.floor("garbage:some-result-checked", 20);
     ctx.floor("hash-fn:compared", 4369);
+    ctx.floor("name:extreme-hash-state", 100);
     for e in Enc::ALL {
         ctx.floor(&format!("enc:{}", e.name()), 50);
     }
@@ -131,6 +132,9 @@ fn classify_name(ctx: &mut Ctx, n: &[u8]) {
     if n.is_empty() {
         ctx.count("name:empty");
     }
+    if n.windows(7).any(|w| w == [0x0f; 7]) {
+        ctx.count("name:extreme-hash-state");
+    }
 }
 
 /// absent names aimed at the weak spots: same hash, same bucket, near-miss spellings
@@ -169,6 +173,20 @@ pub fn absent_candidates(rng: &mut crate::rng::Rng, names: &[Vec<u8>], gnu: bool
         let mut c = n.clone();
         c.push(b'x');
         v.push(c);
+        // the name without its last 7 bytes (the generator plants extensions with an identical hash)
+        if l >= 8 {
+            v.push(n[..l - 7].to_vec());
+        }
+        if gnu && l >= 1 && l <= 24 {
+            // an extension of a present name with the same 32-bit GNU hash
+            let mut h: u32 = 5381;
+            for &b in n.iter() {
+                h = h.wrapping_mul(33).wrapping_add(b as u32);
+            }
+            let mut c = n.clone();
+            c.extend_from_slice(&crate::gen::symtab::gnu_suffix_for(n, h));
+            v.push(c);
+        }
     }
     for _ in 0..30 {
         let l = rng.usize_below(10);
@@ -380,7 +398,7 @@ fn run(ctx: &mut Ctx, si: usize, _case: u64) {
                 1 => ctx.rng.usize_below(40),
                 _ => ctx.rng.usize_below(300),
             };
-            let mut s = ctx.rng.bytes(l);
+            let mut s = if ctx.rng.chance(1, 8) { crate::gen::symtab::sysv_extreme_name(&mut ctx.rng) } else { ctx.rng.bytes(l) };
             // symbol names are C strings: no embedded NUL
             for b in s.iter_mut() {
                 if *b == 0 {
